@@ -5,4 +5,5 @@ def check(ctx):
     writeprops.run(ctx, "C07")
 def oracle_case(case):
     if case.get("kind") == "write-known": return writeprops.write_replay(case, "C07")
+    if case.get("kind") in ("write", "roundtrip"): return writeprops.case_replay(case, "C07")
     return []
